@@ -70,27 +70,112 @@ Proof.
   rewrite wit_pre_len. reflexivity.
 Qed.
 
-(* evaluate the closed guard / closed first argument at the head of the left-hand side; never applied to
-   a term that mentions wit_file (its length must not be computed in unary) *)
+(* The evaluation is done for an abstract image [file] about which only its length and ten small reads
+   are known: no reduction can then run into the unary length of the concrete image. *)
+Section Symbolic.
+Variable file : list N.
+Hypothesis Hlen : blen file = 18446744073709551616.
+Hypothesis Hp8 : slice file 0 8 = Ok [1; 0; 2; 0; 0; 0; 0; 0].
+Hypothesis Hv : index file 0 = Ok 1.
+Hypothesis Hnum : slice file 2 4 = Ok [2; 0].
+Hypothesis Hrefc : slice file 4 8 = Ok [0; 0; 0; 0].
+Hypothesis Hhsize : slice file 8 12 = Ok [18446744073709551599; 0; 0; 0].
+Hypothesis Hty1 : slice file 16 18 = Ok [0; 0].
+Hypothesis Hsz1 : slice file 18 20 = Ok [18446744073709551584; 0].
+Hypothesis Hty2 : slice file 18446744073709551608 18446744073709551610 = Ok [0; 0].
+Hypothesis Hsz2 : slice file 18446744073709551610 18446744073709551612 = Ok [1; 0].
+
+(* evaluate the closed guard / closed first argument at the head of the left-hand side *)
 Ltac hstep :=
   lazymatch goal with
-  | |- (if ?c then _ else _) = _ => let v := eval vm_compute in c in change c with v; cbv beta iota
-  | |- obind ?o _ = _ => let v := eval vm_compute in o in change o with v; cbn [obind]
+  | |- (if ?c then _ else _) = _ =>
+      lazymatch c with context [file] => fail "mentions file" | _ => idtac end;
+      let v := eval vm_compute in c in change c with v; cbv beta iota
+  | |- obind ?o _ = _ =>
+      lazymatch o with context [file] => fail "mentions file" | _ => idtac end;
+      let v := eval vm_compute in o in change o with v; cbn [obind]
+  end.
+(* bring the closed offsets of the reads to numerals *)
+Ltac norm_reads :=
+  repeat match goal with
+  | |- context [slice file ?a ?b] =>
+      let a' := eval vm_compute in a in let b' := eval vm_compute in b in
+      progress change (slice file a b) with (slice file a' b')
+  | |- context [index file ?a] =>
+      let a' := eval vm_compute in a in progress change (index file a) with (index file a')
   end.
 
-Lemma wit_loop2 fuel :
-  v1_loop (S fuel) wit_file false 18446744073709551608 18446744073709551615 1 2 = Panic.
+Lemma sym_loop2 fuel :
+  v1_loop (S fuel) file false 18446744073709551608 18446744073709551615 1 2 = Panic.
 Proof.
-  cbn [v1_loop]. unfold readable, rd_end, rd_le. rewrite wit_len.
-  rewrite !wit_slice_tail by blia.
-  do 4 hstep. do 2 hstep. do 3 hstep.
-  rewrite slice_panic by (rewrite wit_len; blia). reflexivity.
+  cbn [v1_loop]. unfold readable, rd_end, rd_le. rewrite Hlen. norm_reads. rewrite Hty2, Hsz2.
+  repeat hstep. norm_reads.
+  rewrite slice_panic by (rewrite Hlen; blia). reflexivity.
 Qed.
 
-Lemma wit_loop1 fuel :
-  v1_loop (S (S fuel)) wit_file false 16 18446744073709551615 0 2 = Panic.
+Lemma sym_loop1 fuel :
+  v1_loop fuel file false 18446744073709551608 18446744073709551615 1 2 = Panic ->
+  v1_loop (S fuel) file false 16 18446744073709551615 0 2 = Panic.
 Proof.
-  cbn [v1_loop]. unfold readable, rd_end, rd_le. rewrite wit_len.
-  rewrite !wit_slice_head by blia.
-  do 4 hstep. do 2 hstep. do 3 hstep. Show.
-Abort.
+  intros H2.
+  cbn [v1_loop]. unfold readable, rd_end, rd_le. rewrite Hlen. norm_reads. rewrite Hty1, Hsz1.
+  repeat hstep. norm_reads.
+  destruct (slice_ok file 24 18446744073709551608) as (d & Hd & _); [blia | rewrite Hlen; blia |].
+  rewrite Hd. cbn [obind].
+  match goal with |- context [v1_loop fuel file false ?c ?e ?k ?m] =>
+    let c' := eval vm_compute in c in let k' := eval vm_compute in k in
+    change (v1_loop fuel file false c e k m) with (v1_loop fuel file false c' e k' m) end.
+  rewrite H2. reflexivity.
+Qed.
+
+Lemma sym_parse_v1 : parse_v1 file 0 0 false = Panic.
+Proof.
+  unfold parse_v1, readable, rd_end, rd_le. rewrite Hlen. norm_reads. rewrite Hv, Hnum, Hrefc, Hhsize.
+  repeat hstep. cbv zeta.
+  assert (Hf : exists n, length file = S n).
+  { destruct (length file) as [|n] eqn:E; [|eexists; reflexivity].
+    unfold blen in Hlen. rewrite E in Hlen. discriminate Hlen. }
+  destruct Hf as (n & ->).
+  match goal with |- context [v1_loop ?f file false ?c ?e ?k ?m] =>
+    let c' := eval vm_compute in c in let e' := eval vm_compute in e in
+    change (v1_loop f file false c e k m) with (v1_loop f file false c' e' k m) end.
+  rewrite sym_loop1 by apply sym_loop2. reflexivity.
+Qed.
+
+Lemma sym_dec_ohdr : dec_ohdr false file 0 = Panic.
+Proof.
+  unfold dec_ohdr, readable. rewrite Hlen. norm_reads. rewrite Hp8.
+  repeat hstep.
+  apply sym_parse_v1.
+Qed.
+End Symbolic.
+
+Lemma wit_index0 : index wit_file 0 = Ok 1.
+Proof. unfold wit_file. rewrite <- app_assoc. unfold wit_head at 1. cbn [app]. apply index0. Qed.
+
+Ltac wit_head_read := rewrite wit_slice_head by blia; reflexivity.
+Ltac wit_tail_read := rewrite wit_slice_tail by blia; reflexivity.
+
+(* ReadObjectHeader (model) on a 2^64-element image with two non-byte elements *)
+Lemma dec_ohdr_panic_witness : dec_ohdr false wit_file 0 = Panic.
+Proof.
+  apply sym_dec_ohdr.
+  - exact wit_len.
+  - wit_head_read.
+  - exact wit_index0.
+  - wit_head_read.
+  - wit_head_read.
+  - wit_head_read.
+  - wit_head_read.
+  - wit_head_read.
+  - wit_tail_read.
+  - wit_tail_read.
+Qed.
+
+(* hence the unconditional statement is false for the model as it is written *)
+Lemma dec_ohdr_no_panic_refuted : ~ (forall sbBE file addr, dec_ohdr sbBE file addr <> Panic).
+Proof. intros H. exact (H false wit_file 0 dec_ohdr_panic_witness). Qed.
+
+(* the witness is outside both hypotheses of the partial theorems *)
+Lemma wit_not_short : ~ blen wit_file < 18446744073709551616.
+Proof. rewrite wit_len. blia. Qed.
